@@ -31,8 +31,8 @@ func (s *Selector) SelectTargetsForBuild(
 	visited := make(map[label.TargetLabel]bool)
 	for _, node := range graph.GetNodes() {
 		// Match pattern and test flag
-		if s.nodeMatchesFilters(node) {
-			if !nodeMatchesPlatform(node) {
+		if s.nodeIsSelectedBy(graph, node) {
+			if !nodeIsSelectablePlatform(graph, node) {
 				platformSkipped += 1
 				continue // Skip targets that don't match the platform
 			}
